@@ -462,8 +462,10 @@ bool genFiftyCase(Choices& c, UciCase& k) {
     }
     if (!ref::sane(base) || ref::legalMoves(base).empty()) return false;
     int target = c.of(std::vector<int>{100, 100, 100, 99, 101, 104, 110, 98, 100, 95, 91, 100}); // half-move clock after m (when m is reversible)
-    int byPlay = c.chance(1, 2) ? c.range(0, 3) : c.chance(1, 2) ? c.range(4, 12) : c.chance(1, 2) ? c.range(20, 27) : 27; // cycles of 4 plies (27: the clock comes from play alone)
-    if (byPlay == 27) target = c.of(std::vector<int>{110, 106, 110, 107}); // more than 100 history plies: texel then drops its hash list
+    int sel = c.pick(8);
+    int byPlay = sel < 4 ? c.range(0, 3) : sel < 6 ? c.range(4, 12) : sel == 6 ? c.range(20, 27) : 27; // cycles of 4 plies (27: the clock comes from play alone)
+    bool longPlay = sel == 7;
+    if (longPlay) target = c.of(std::vector<int>{110, 106, 110, 107}); // more than 100 history plies: texel then drops its hash list
     int h0 = target - 1 - 4 * byPlay;
     if (h0 < 0) { byPlay = (target - 1) / 4; h0 = target - 1 - 4 * byPlay; }
     base.hmc = h0; base.fmc = std::max(base.fmc, h0 / 2 + 1);
